@@ -590,3 +590,192 @@ Proof.
     rewrite <- L, remove_nth_app_len. f_equal. unfold lentry_children, body. cbn [e_first e_alts e_trail].
     rewrite flat_map_app. cbn [app]. now rewrite <- !app_assoc.
 Qed.
+
+(* ------------------------------------------------------------------ Entry::replace *)
+Definition lrel_core (r : lrel) : list rtree :=
+  Tok IDENT (l_name r) :: part qual_node (l_qual r) ++ part vnode (l_ver r) ++ part arch_node (l_archs r)
+  ++ flat_map prof_part (l_profs r).
+Lemma lrel_children_core r : lrel_children r = lrel_core r ++ wtrees (l_trail r).
+Proof. unfold lrel_children, lrel_core. cbn [app]. now rewrite <- !app_assoc. Qed.
+
+Lemma snoc_nonws a x : ws_elem x = false -> ws_prefix_len (rev (a ++ [x])) = 0.
+Proof. intros H. rewrite rev_app_distr. cbn [rev app ws_prefix_len]. now rewrite H. Qed.
+Lemma part_end {A} (f : A -> rtree) a o : (forall x, ws_elem (f x) = false) ->
+  ws_prefix_len (rev a) = 0 -> ws_prefix_len (rev (a ++ part f o)) = 0.
+Proof.
+  intros Hf Ha. destruct o as [[w x]|]; cbn [part]; [|now rewrite app_nil_r].
+  rewrite app_assoc. apply snoc_nonws, Hf.
+Qed.
+Lemma profs_end ps : forall a, ws_prefix_len (rev a) = 0 -> ws_prefix_len (rev (a ++ flat_map prof_part ps)) = 0.
+Proof.
+  induction ps as [|[w g] r IH]; intros a Ha; cbn [flat_map]; [now rewrite app_nil_r|].
+  unfold prof_part at 1. cbn [fst snd]. rewrite app_assoc. apply IH. rewrite app_assoc. now apply snoc_nonws.
+Qed.
+Lemma core_end r : ws_prefix_len (rev (lrel_core r)) = 0.
+Proof.
+  unfold lrel_core.
+  change (Tok IDENT (l_name r) :: part qual_node (l_qual r) ++ part vnode (l_ver r) ++ part arch_node (l_archs r) ++ flat_map prof_part (l_profs r))
+    with ([Tok IDENT (l_name r)] ++ part qual_node (l_qual r) ++ part vnode (l_ver r) ++ part arch_node (l_archs r) ++ flat_map prof_part (l_profs r)).
+  rewrite !app_assoc. apply profs_end. apply part_end; [reflexivity|]. apply part_end; [reflexivity|].
+  apply part_end; [reflexivity|]. reflexivity.
+Qed.
+
+Lemma dressed_commute old new : dressed (lrel_tree old) (lrel_tree new) = lrel_tree (with_trail (l_trail old) new).
+Proof.
+  unfold dressed, lrel_tree. cbn [children set_children ekind]. f_equal.
+  assert (Hh : forall r, ws_prefix_len (lrel_children r) = 0) by reflexivity.
+  unfold ws_head, strip_ws, ws_tail. rewrite !Hh. cbn [firstn skipn app].
+  rewrite !lrel_children_core. rewrite !rev_app_distr, !rev_wtrees, !ws_prefix_len_wtrees, !core_end, !Nat.add_0_r, !rev_length.
+  replace (length (lrel_core new ++ wtrees (l_trail new)) - length (l_trail new)) with (length (lrel_core new))
+    by (rewrite app_length, wtrees_length; lia).
+  replace (length (lrel_core old ++ wtrees (l_trail old)) - length (l_trail old)) with (length (lrel_core old))
+    by (rewrite app_length, wtrees_length; lia).
+  rewrite firstn_app_len, skipn_app_len. reflexivity.
+Qed.
+
+(* ------------------------------------------------------------------ the operands *)
+Lemma crel_is_lrel r : new_only r = true -> crel_tree r = lrel_tree (lrel_new r).
+Proof.
+  unfold new_only, plain. destruct r as [n q v a p]. cbn [rr_name rr_qual rr_ver rr_archs rr_profs].
+  destruct a; [rewrite andb_false_l; discriminate|]. destruct p; [|rewrite andb_false_l; discriminate].
+  destruct q; [rewrite andb_false_r; discriminate|]. intros _.
+  unfold crel_tree, lrel_tree, lrel_children, lrel_new. cbn [rr_name rr_qual rr_ver l_name l_qual l_ver l_archs l_profs l_trail part app flat_map wtrees map].
+  destruct v as [[vc ver]|]; cbn [part wtrees map wtree w_sp app]; [|reflexivity]. now rewrite version_is_vnode.
+Qed.
+Lemma join_relations_alts rs : forall i, forallb new_only rs = true ->
+  join_relations fixed (S i) (map crel_tree rs) = flat_map alt_part (map (fun r' => ([w_sp], [w_sp], lrel_new r')) rs).
+Proof.
+  induction rs as [|r rest IH]; intros i H; [reflexivity|]. cbn [forallb] in H. apply andb_prop in H as [H1 H2].
+  cbn [map join_relations flat_map fx_pipe fixed]. rewrite (IH (S i) H2), (crel_is_lrel r H1). reflexivity.
+Qed.
+Lemma centry_is_lentry r rs : forallb new_only (r :: rs) = true -> centry_tree (r :: rs) = lentry_tree (lentry_new r rs).
+Proof.
+  cbn [forallb]. intros H. apply andb_prop in H as [H1 H2].
+  unfold centry_tree, entry_from_relations, lentry_tree, lentry_children, lentry_new. cbn [map join_relations app e_first e_alts e_trail wtrees].
+  rewrite (crel_is_lrel r H1), (join_relations_alts rs 0 H2), app_nil_r. reflexivity.
+Qed.
+
+(* ------------------------------------------------------------------ positions in the field *)
+Lemma nth_entry_inv l i ci e : nth_entry l i = Some (ci, e) ->
+  exists pre post, l = pre ++ RE e :: post /\ length pre = ci /\ nth_index is_re i l = Some ci.
+Proof.
+  unfold nth_entry. destruct (nth_index is_re i l) as [c|] eqn:E; [|discriminate].
+  destruct (nth_error l c) as [[| |e'|]|] eqn:E2; try discriminate. intros [= <- <-].
+  destruct (nth_error_split_eq _ _ _ E2) as [Sp L]. exists (firstn c l), (skipn (S c) l). auto.
+Qed.
+Lemma nth_rel_some e j : j <? n_rels e = true -> exists r, nth_rel e j = Some r.
+Proof.
+  unfold n_rels. intros H. apply Nat.ltb_lt in H. destruct j as [|j]; cbn [nth_rel]; [eauto|].
+  destruct (nth_error (e_alts e) j) eqn:E; [cbn; eauto|]. apply nth_error_None in E. lia.
+Qed.
+Lemma child_at_ltree pre x post : child_at (ltree (pre ++ x :: post)) (length pre) = Some (rt x).
+Proof.
+  unfold child_at, ltree. cbn [children]. rewrite map_app. cbn [map]. rewrite <- (map_length rt pre).
+  apply nth_error_app_len.
+Qed.
+Lemma upd_entry pre e post F e' : F (lentry_tree e) = lentry_tree e' ->
+  upd_path (ltree (pre ++ RE e :: post)) [length pre] F = ltree (replace_at (length pre) (RE e') (pre ++ RE e :: post)).
+Proof.
+  intros H. rewrite replace_at_split. unfold ltree. rewrite !map_app. cbn [map upd_path].
+  rewrite <- (map_length rt pre), upd_nth_app_r. cbn [upd_path relem_tree]. now rewrite H.
+Qed.
+
+(* an edit of one alternative *)
+Lemma rel_update_commute l i j (g : lrel -> lrel) (F : rtree -> rtree) ci e :
+  (forall r, F (lrel_tree r) = lrel_tree (g r)) ->
+  nth_entry l i = Some (ci, e) -> j <? n_rels e = true ->
+  exists cj, rel_pos (ltree l) i j = Some (ci, cj) /\
+             upd_path (ltree l) [ci; cj] F = ltree (replace_at ci (RE (upd_rel e j g)) l).
+Proof.
+  intros HF He Hj. destruct (nth_entry_inv _ _ _ _ He) as (pre & post & -> & <- & Hi).
+  destruct (nth_rel_some e j Hj) as (r & Hr).
+  destruct (entry_rel_split e j r Hr) as (rp & rq & Ech & Hn & Hupd).
+  exists (length rp). split.
+  - unfold rel_pos. rewrite entry_pos_ltree, Hi, child_at_ltree. cbn [relem_tree lentry_tree children]. now rewrite Hn.
+  - change [length pre; length rp] with ([length pre] ++ [length rp]).
+    rewrite (upd_path_app _ _ _ _ (lentry_tree e)).
+    + apply upd_entry. unfold lentry_tree. cbn [upd_path]. rewrite Ech, upd_nth_app_r. cbn [upd_path].
+      now rewrite HF, Hupd.
+    + cbn [get_path]. fold (child_at (ltree (pre ++ RE e :: post)) (length pre)). now rewrite child_at_ltree.
+Qed.
+
+Lemma on_relation_commute l i j (g : lrel -> lrel) f l' :
+  (forall r, f (lrel_children r) = lrel_children (g r)) ->
+  a_on_relation l i j g = Some l' -> t_on_relation (ltree l) i j f = Ok (ltree l').
+Proof.
+  intros Hf. unfold a_on_relation. destruct (nth_entry l i) as [[ci e]|] eqn:He; [|discriminate].
+  destruct (j <? n_rels e) eqn:Hj; [|discriminate]. intros [= <-].
+  destruct (rel_update_commute l i j g (fun n => set_children (f (children n)) n) ci e) as (cj & Hp & Hu); auto.
+  - intros r. unfold lrel_tree. cbn [children set_children ekind]. now rewrite Hf.
+  - unfold t_on_relation. now rewrite Hp, Hu.
+Qed.
+
+(* ------------------------------------------------------------------ Relation::remove in the field *)
+Lemma entry_remove_cs_hole v pre x y post :
+  entry_remove_cs v (pre ++ x :: post) (length pre) = entry_remove_cs v (pre ++ y :: post) (length pre).
+Proof. unfold entry_remove_cs. now rewrite !firstn_app_len, !skipn_S_app_len. Qed.
+
+Lemma count_relations_lentry e : count_if is_relation (lentry_children e) =? 0 = false.
+Proof. reflexivity. Qed.
+
+Lemma remove_relation_commute l i j l' : a_remove_relation l i j = Some l' ->
+  t_op (ARemoveRelation i j) (ltree l) = Ok (ltree l').
+Proof.
+  unfold a_remove_relation. destruct (nth_entry l i) as [[ci e]|] eqn:He; [|discriminate].
+  destruct (j <? n_rels e) eqn:Hj; [|discriminate]. intros Hl'.
+  destruct (nth_entry_inv _ _ _ _ He) as (pre & post & -> & <- & Hi).
+  destruct (nth_rel_some e j Hj) as (r & Hr).
+  destruct (entry_rel_split e j r Hr) as (rp & rq & Ech & Hn & Hupd).
+  assert (Hp : rel_pos (ltree (pre ++ RE e :: post)) i j = Some (length pre, length rp)).
+  { unfold rel_pos. rewrite entry_pos_ltree, Hi, child_at_ltree. cbn [relem_tree lentry_tree children]. now rewrite Hn. }
+  cbn [t_op]. rewrite Hp. unfold t_remove_relation. rewrite Hp, child_at_ltree.
+  cbn [relem_tree lentry_tree children]. rewrite (remove_rel_commute e j r rp rq Hr Ech Hn).
+  destruct (a_remove_rel e j) as [e'|].
+  - injection Hl' as <-. rewrite count_relations_lentry.
+    rewrite (upd_entry pre e post (fun _ => Node ENTRY (lentry_children e')) e') by reflexivity. reflexivity.
+  - cbn [count_if filter length Nat.eqb]. unfold t_remove_entry_at.
+    unfold ltree at 1 2. rewrite map_app. cbn [map upd_path]. rewrite <- (map_length rt pre), upd_nth_app_r.
+    cbn [upd_path children set_children ekind].
+    rewrite (entry_remove_cs_hole fixed (map rt pre) (Node ENTRY []) (rt (RE e)) (map rt post)).
+    change (map rt pre ++ rt (RE e) :: map rt post) with (map rt pre ++ map rt (RE e :: post)). rewrite <- map_app.
+    rewrite map_length, remove_at_commute, Hl'. reflexivity.
+Qed.
+
+(* ------------------------------------------------------------------ every operation, on the tree of a live layout *)
+Definition operands_plain (o : aop) : bool :=
+  match o with
+  | APush e | AInsert _ e | AReplace _ e => forallb new_only e
+  | AEPush _ r | AEReplace _ _ r => new_only r
+  | _ => true
+  end.
+
+Theorem a_op_tree o l l' : operands_plain o = true -> a_op o l = Some l' -> t_op o (ltree l) = Ok (ltree l').
+Proof.
+  intros Hn H. destruct o; cbn [a_op operands_plain] in *.
+  - (* push *)
+    destruct e as [|r rs]; [discriminate|]. cbn [operand_lentry option_map] in H. injection H as <-.
+    cbn [t_op]. unfold operand_entry. rewrite (centry_is_lentry r rs Hn). now rewrite push_commute.
+  - destruct e as [|r rs]; [discriminate|]. cbn [operand_lentry option_map] in H. injection H as <-.
+    cbn [t_op]. unfold operand_entry. rewrite (centry_is_lentry r rs Hn). now rewrite insert_commute.
+  - destruct e as [|r rs]; [discriminate|]. cbn [operand_lentry] in H.
+    cbn [t_op]. unfold operand_entry. rewrite (centry_is_lentry r rs Hn). now apply replace_commute.
+  - now apply remove_entry_commute.
+  - (* Entry::push *)
+    unfold a_on_entry in H. destruct (nth_entry l i) as [[ci e]|] eqn:He; [|discriminate]. injection H as <-.
+    destruct (nth_entry_inv _ _ _ _ He) as (pre & post & -> & <- & Hi).
+    cbn [t_op]. rewrite entry_pos_ltree, Hi. unfold operand_rel. rewrite (crel_is_lrel r Hn).
+    now rewrite (upd_entry pre e post _ (a_epush e (lrel_new r))) by apply epush_commute.
+  - (* Entry::replace *)
+    destruct (nth_entry l i) as [[ci e]|] eqn:He; [|discriminate].
+    destruct (j <? n_rels e) eqn:Hj; [|discriminate]. injection H as <-.
+    destruct (rel_update_commute l i j (fun old => with_trail (l_trail old) (lrel_new r))
+                (fun old => dressed old (operand_rel r)) ci e) as (cj & Hp & Hu); auto.
+    { intros r0. unfold operand_rel. rewrite (crel_is_lrel r Hn). apply dressed_commute. }
+    cbn [t_op]. rewrite Hp, Hu. reflexivity.
+  - now apply remove_relation_commute.
+  - cbn [t_op]. eapply on_relation_commute; [|exact H]. apply set_version_commute.
+  - cbn [t_op]. eapply on_relation_commute; [|exact H]. intros r. apply (set_version_commute None).
+  - cbn [t_op]. eapply on_relation_commute; [|exact H]. apply set_archqual_commute.
+  - cbn [t_op]. eapply on_relation_commute; [|exact H]. apply set_archs_commute.
+  - cbn [t_op]. eapply on_relation_commute; [|exact H]. apply add_profile_commute.
+Qed.
